@@ -1540,7 +1540,10 @@ func runC19(cfg Config, r *Result) {
 		c19Case(h, "binary", model, r)
 	}
 	// the same programs once more, the output file already present (own generator: the cases above stay as they were)
+	tOver := time.Now()
 	orng := rand.New(rand.NewSource(cfg.Rng.Int63()))
+	var overIns []c19Input
+	var overCmds [][]SX
 	for i, h := range binHs {
 		prog := evyProgram(h)
 		fresh, err := runBinary(prog, 10) // cached
@@ -1550,8 +1553,24 @@ func runC19(cfg Config, r *Result) {
 		kind := c19ExistingKinds[i%len(c19ExistingKinds)]
 		cmds := cmdsSX(h)
 		in := c19Input{Case: LstOf(cmds).String(), Mode: "binary-overwrite", Program: prog, ExistingKind: kind, Existing: c19Existing(orng, kind, fresh.doc)}
-		c19CaseSX(cmds, in, model, r)
+		overIns, overCmds = append(overIns, in), append(overCmds, cmds)
 	}
+	// the runs are independent processes: started four at a time (the results are cached), judged in order
+	sem := make(chan struct{}, 4)
+	var owg sync.WaitGroup
+	for i, in := range overIns {
+		if _, tiny := cmdsTiny(overCmds[i]); tiny || cmdsHang(overCmds[i]) || cmdsBelowMin(overCmds[i]) {
+			continue // not run by the case either
+		}
+		owg.Add(1)
+		sem <- struct{}{}
+		go func(prog, ex string) { defer owg.Done(); runBinaryOver(prog, &ex, 10); <-sem }(in.Program, in.Existing)
+	}
+	owg.Wait()
+	for i, in := range overIns {
+		c19CaseSX(overCmds[i], in, model, r)
+	}
+	r.Note("wall: binary-overwrite cases %.1fs (within the binary cases)", time.Since(tOver).Seconds())
 	c19Rejected(model, r)
 	nHang := cfg.N(4, 40)
 	for i := 0; i < nHang; i++ {
